@@ -111,6 +111,14 @@ def gen_cases(rng, tier):
     for ln in range(0, n + 1):
         for tup in itertools.product(ALPHA, repeat=ln):
             yield {'args': [['Foo', ['s', ''.join(tup)]]]}
+    # every ASCII character (printable or not) alone, twice, and inside a word; and texts that mean something to a formatter
+    for code in range(0, 128):
+        ch = chr(code)
+        for v in (ch, ch + ch, 'a' + ch + 'b' + ch):
+            yield {'args': [['Foo', ['s', v]]]}
+    for v in ('{}', '{0}', '{x}', '{ciissversion:2}', 'a{b', '}', '%s', '%(a)s', '%d%%', '${HOME}', '$(id)', '`id`', '#x', 'a;b', 'a|b', 'x&&y', '<>', "it's"):
+        yield {'args': [['Foo', ['s', v]]]}
+        yield {'args': [['Log', ['s', 'notice stdout']], ['Bar', ['s', v]], ['Baz', ['i', 1]]]}
     # every key of the pool alone and next to a usable pair (a key that cannot be written on one line must be refused)
     for k in KEYS:
         yield {'args': [[k, ['s', 'v']]]}
